@@ -32,6 +32,7 @@ Firsts ==
     [tag |-> PixelTag, vrs |-> {"OB", "OW"}, lens |-> {4, LenOf("OB"), LenOf("OW"), LenOf("UL")}],       \* Px, native
     [tag |-> <<8, 0>>, vrs |-> {"UL"}, lens |-> {4, LenOf("UL"), LenOf("US")}],                          \* group length
     [tag |-> <<9, 16>>, vrs |-> {"LO"}, lens |-> {4, LenOf("LO"), LenOf("DA")}],                         \* private creator
+    [tag |-> <<16, 32>>, vrs |-> {"LO", "UN"}, lens |-> {4}],              \* PatientID; written as UN it is ambiguous in explicit VR
     [tag |-> <<9, 4097>>, vrs |-> {"LO", "OB", "UN"}, lens |-> {0, 4, LenOf("DA"), 16705}],              \* private element: no entry
     [tag |-> <<114, 121>>, vrs |-> {"CS", "UT"}, lens |-> {2, LenOf("FD"), 16705}] }                     \* unknown attribute: no entry
 
